@@ -450,7 +450,13 @@ class tridonic(hid):
                 self._log.debug(f"waiting for {outstanding_transmissions=} "
                                 "{response=}")
                 if len(messages) == 0:
-                    await event.wait()
+                    try:
+                        await event.wait()
+                    except asyncio.CancelledError:
+                        # Give the slot back: the sequence number will
+                        # be reused after 255 more commands
+                        self._outstanding.pop(seq, None)
+                        raise
                     event.clear()
                 message = messages.pop(0)
                 if message == "fail":
